@@ -4,7 +4,7 @@ from __future__ import annotations
 
 import importlib
 
-CONTRACT_MODULES = ["contracts.curves", "contracts.groups", "contracts.closed", "contracts.fields", "contracts.ints", "contracts.purity", "contracts.hashing", "contracts.codec", "contracts.ecdsa", "contracts.bls"]
+CONTRACT_MODULES = ["contracts.curves", "contracts.groups", "contracts.closed", "contracts.fields", "contracts.ints", "contracts.purity", "contracts.hashing", "contracts.codec", "contracts.ecdsa", "contracts.bls", "contracts.h2c"]
 
 _COMMON_TRUST = [
     "CPython semantics as modelled in DESIGN.md section 3 (mathematical ints, bytes as octet sequences, static name resolution, no monkey-patching)",
@@ -119,6 +119,14 @@ PROPS = {
         text="SkToPk, Sign (three suites, with the key prefix in the augmentation suite), PopProve and Aggregate are proved to output exactly enc1(sk.G1), enc2(sk.H(m', tag)), enc2(sk.H(PK, POP tag)) and enc2(sum) with sha256 as XMD hash; the tag literals equal the draft-v4 strings pinned in the contract.",
         note="Definitional proof over the contracts of the encoders and hash_to_G2.",
         design_ref="DESIGN.md section 8 C09"),
+    "C10": dict(level="proof", trusted=_COMMON_TRUST, assumptions=[
+        "L-SQRT34 / Euler for sqrt_division_FQ (Lean Fields.lean): the candidate test succeeds iff u/v is a square; otherwise result^2 v = -u",
+        "L-SQRT8 for sqrt_division_FQ2 and the eta candidates (assumed; core steps Lean-checked in Roots.lean): needed for 'the SWU failure is unreachable'",
+        "A-ORDER, A-STRUCT-G1 (via C17): cofactor clearing lands in the prime-order subgroup",
+        "the RFC text is not available offline: A', B', Z, the isogeny tables and h_eff are pinned literals, tied to the RFC by the closed facts 'the isogeny maps E' into E' (polynomial identity, eval), 'g(B/(ZA)) is a square', 'Z non-square' and by the RFC vectors in tests/bls"],
+        text="optimized_swu_G1/G2 are executed symbolically on every path (exceptional / regular x square / non-square x sign flip, and for G2 every candidate of the eta loop) over an abstract field with SYMBOLIC A', B', Z and eta table: the result is a finite point of E' whose x is the RFC's x1 resp. x2 = Z u^2 x1, with (y/z)^2 = g(x/z) and sgn0(y/z) = sgn0(u), and the 'SWU failure' raise is unreachable; the isogeny maps are proved to evaluate x_num/x_den, y*y_num/y_den for symbolic tables (Horner loops); map_to_curve and hash_to_G1/G2 are proved to be the RFC composition clear_cofactor(map(u0) + map(u1)) over hash_to_field (C15); sgn0 is proved against RFC 9380 4.1 (C14 unit).",
+        note="Square-root completeness lemmas are assumptions; everything the code tests a posteriori is proved without them.",
+        design_ref="DESIGN.md section 8 C10"),
     "C17": dict(level="proof", trusted=_COMMON_TRUST, assumptions=[
         "A-ORDER: #E(F_p) = h1 r (forced by Hasse + r prime, eval) and #E'(F_p2) = h2 r (assumed; Hasse-interval cross-check by eval)",
         "A-STRUCT-G1: the cofactor part of E(F_p) has exponent dividing 1 - x (RFC 9380 section 8.8.1); needed only for 'clear_cofactor_G1 lands in the subgroup'",
